@@ -112,7 +112,7 @@ impl C11 {
             let lex = lex_strings(l);
             stem_sets.push((l, "lexicon titles<=2w x one-word queries (all prefixes), every re-casing".to_string(), Titles::Words { lex: lex.clone(), maxw: 2 }, word_queries(&lex, 1)));
             let f6 = fam6(l);
-            let (t, q) = tier.pick((3, 3), (4, 5));
+            let (t, q) = tier.pick((3, 3), (4, 4));
             stem_sets.push((l, format!("F6 suffix-letter words: titles<={} x queries<={}, every re-casing", t, q), Titles::Chars { fam: f6.clone(), lo: 1, hi: t }, all_strings(&f6, 1, q)));
         }
         C11 { stem_sets, tier, letters, fw }
